@@ -159,7 +159,8 @@ def okApartB (r : CPath) : Except Errno CPath → Bool
   | .ok q => decide (Apart r q)
   | .error _ => true
 
-def entryApartB (S : List FS) (x : FS) (cwd r : CPath) (e : Entry) : Bool :=
+/-- the geometry of `EntryApart` except `parentHeads` -/
+def entryApartOldB (S : List FS) (x : FS) (cwd r : CPath) (e : Entry) : Bool :=
   !(FS.under r (dirCS x cwd (dirname e.loc))) &&
   okApartB r (resolveS x cwd e.loc) &&
   (S.all fun x' => match resolveS x' cwd e.loc with
@@ -168,13 +169,26 @@ def entryApartB (S : List FS) (x : FS) (cwd r : CPath) (e : Entry) : Bool :=
   okApartB r (resolveS x cwd (pathOfBackupCopy e.info)) &&
   okApartB r (resolveS x cwd e.info)
 
+def entryApartB (S : List FS) (x : FS) (cwd r : CPath) (e : Entry) : Bool :=
+  entryApartOldB S x cwd r e &&
+  (!(hasDotComp (dirname e.loc)) ||
+    (makedirsHeads (dirname e.loc).length (dirname e.loc)).all fun q =>
+      match resolveS x cwd q with
+      | .ok p => !(FS.under r p)
+      | .error _ => true)
+
 theorem okApart_of_check {r : CPath} {R' : Except Errno CPath} (h : okApartB r R' = true) :
     ∀ q, R' = .ok q → Apart r q := by
   intro q hq; subst hq; simpa [okApartB] using h
 
-theorem entryApart_of_check {S : List FS} {x : FS} {cwd r : CPath} {e : Entry}
-    (h : entryApartB S x cwd r e = true) : EntryApart S x cwd r e := by
-  unfold entryApartB at h
+theorem entryApartOld_of_check {S : List FS} {x : FS} {cwd r : CPath} {e : Entry}
+    (h : entryApartOldB S x cwd r e = true) :
+    ¬ FS.under r (dirC x cwd (dirname e.loc)) = true ∧
+    (∀ d, FS.resolve x cwd e.loc = .ok d → Apart r d) ∧
+    (∀ x' ∈ S, ∀ d, FS.resolve x' cwd e.loc = .ok d → ∀ q, followC x d = some q → Apart r q) ∧
+    (∀ p, FS.resolve x cwd (pathOfBackupCopy e.info) = .ok p → Apart r p) ∧
+    (∀ i, FS.resolve x cwd e.info = .ok i → Apart r i) := by
+  unfold entryApartOldB at h
   simp only [Bool.and_eq_true] at h
   obtain ⟨⟨⟨⟨h1, h2⟩, h3⟩, h4⟩, h5⟩ := h
   refine ⟨?_, ?_, ?_, ?_, ?_⟩
@@ -189,6 +203,20 @@ theorem entryApart_of_check {S : List FS} {x : FS} {cwd r : CPath} {e : Entry}
     simpa using this
   · intro p hp; rw [resolve_eq] at hp; exact okApart_of_check h4 p hp
   · intro i hi; rw [resolve_eq] at hi; exact okApart_of_check h5 i hi
+
+theorem entryApart_of_check {S : List FS} {x : FS} {cwd r : CPath} {e : Entry}
+    (h : entryApartB S x cwd r e = true) : EntryApart S x cwd r e := by
+  unfold entryApartB at h
+  rw [Bool.and_eq_true] at h
+  obtain ⟨hold, h6⟩ := h
+  obtain ⟨a1, a2, a3, a4, a5⟩ := entryApartOld_of_check hold
+  refine ⟨a1, ?_, a2, a3, a4, a5⟩
+  intro hdot q hq p hp
+  rw [resolve_eq] at hp
+  rw [hdot] at h6
+  have := List.all_eq_true.1 (by simpa using h6) q hq
+  rw [hp] at this
+  simpa using this
 
 def ro : RestoreOpts := { path := b "/" }
 def restoreS (c : ReadCfg) (o : RestoreOpts) (reply : Bytes) (fs : FS) : CmdResult × RunState :=
@@ -341,6 +369,52 @@ theorem restore_initial_geometry_not_enough :
     rw [restoreTrashDirs_eq] at htv
     rw [restoreEntriesOf_eq] at he
     exact entryApart_of_check (key tv htv e he)
+  · rw [restore_twin]; decide +kernel
+
+/-- `/m/.Trash-1000` holds the file `z`, recorded as trashed from
+    `/m/.Trash/1000/gone/../../../zz` (`/m/.Trash/1000/gone` does not exist) -/
+def WD : FS := FS.ofList
+  [([], dN), ([b "h"], dN), ([b "m"], dN), ([b "m", b ".Trash"], dN),
+   (R, .dir 0o700 0), (R ++ [b "files"], dN), (R ++ [b "info"], dN),
+   (TA, .dir 0o700 0), (TA ++ [b "files"], dN), (TA ++ [b "info"], dN),
+   (TA ++ [b "files", b "z"], .file [122] 0o644 0),
+   (TA ++ [b "info", b "z.trashinfo"],
+     .file (formatTrashinfoWith (b ".Trash/1000/gone/../../../zz") (b "2021-01-01T00:00:00")) 0o600 0)]
+  [[], [b "m"]]
+
+/-- The field `parentHeads` of `EntryApart` is needed.  In `WD` the other five conditions hold for the
+    one entry in EVERY state of the run (the `realpath` of the parent string is `/m`; the destination
+    string does not resolve at first and resolves to `/m/zz` later), `/m/.Trash` is insecure, no
+    rename fails — and `os.makedirs("/m/.Trash/1000/gone/../../..")` makes the directory `gone`
+    INSIDE the insecure directory before it fails with `EEXIST` (exit 1). -/
+theorem restore_parent_heads_needed :
+    (pIslink WD rc.cwd (dirname (topDir rc (b "/m"))) = true ∨ pIsdir WD rc.cwd (dirname (topDir rc (b "/m"))) = false ∨
+      pSticky WD rc.cwd (dirname (topDir rc (b "/m"))) ≠ some true) ∧
+    topDir rc (b "/m") ∉ homeTrashPaths rc.env ∧
+    (∀ tv ∈ restoreTrashDirs WD rc ro.trashDir, tv.1 ≠ topDir rc (b "/m") →
+      ∀ e ∈ restoreEntriesOf WD rc.cwd tv.1 tv.2, ∀ x ∈ crashStates noFaults (runRestore rc ro (some (b "0"))) WD,
+        ¬ FS.under R (dirC x rc.cwd (dirname e.loc)) = true ∧
+        (∀ d, FS.resolve x rc.cwd e.loc = .ok d → Apart R d) ∧
+        (∀ x' ∈ crashStates noFaults (runRestore rc ro (some (b "0"))) WD, ∀ d, FS.resolve x' rc.cwd e.loc = .ok d →
+          ∀ q, followC x d = some q → Apart R q) ∧
+        (∀ p, FS.resolve x rc.cwd (pathOfBackupCopy e.info) = .ok p → Apart R p) ∧
+        (∀ i, FS.resolve x rc.cwd e.info = .ok i → Apart R i)) ∧
+    NoRenameFailed (run noFaults (runRestore rc ro (some (b "0"))) { fs := WD }).2.trace ∧
+    (run noFaults (runRestore rc ro (some (b "0"))) { fs := WD }).1.exit = 1 ∧
+    WD.get (R ++ [b "gone"]) = none ∧
+    (run noFaults (runRestore rc ro (some (b "0"))) { fs := WD }).2.fs.get (R ++ [b "gone"]) = some (.dir 0o755 0) := by
+  refine ⟨Or.inr (Or.inr (by rw [pSticky_eq]; decide +kernel)), homeW, ?_, ?_⟩
+  · have hc : crashStates noFaults (runRestore rc ro (some (b "0"))) WD =
+        crashStates noFaults (runRestoreS rc ro (some (b "0"))) WD := by rw [runRestore_eq]
+    have key : ∀ tv ∈ restoreTrashDirsS WD rc ro.trashDir, ∀ e ∈ restoreEntriesOfS WD rc.cwd tv.1 tv.2,
+        ∀ x ∈ crashStates noFaults (runRestoreS rc ro (some (b "0"))) WD,
+          entryApartOldB (crashStates noFaults (runRestoreS rc ro (some (b "0"))) WD) x rc.cwd R e = true := by
+      decide +kernel
+    intro tv htv _ e he x hx
+    rw [restoreTrashDirs_eq] at htv
+    rw [restoreEntriesOf_eq] at he
+    rw [hc] at hx ⊢
+    exact entryApartOld_of_check (key tv htv e he x hx)
   · rw [restore_twin]; decide +kernel
 
 end TrashVerif.Proofs.C08CmdEx
